@@ -22,19 +22,26 @@ type batchDecision struct {
 	Providers [][]byte
 	Fees      []*big.Int
 	Total     *big.Int
+	NoRate    bool // skipped because the exchange-rate service had no answer
 }
 
 // refDecision is the reference for one batch start (DESIGN 9.B). Bindings are taken from bv (post-state of the
 // end-of-block), context terms from pc, the block time is t's.
-func refDecision(bv *View, pc *st.RequestContext, blockTimeOf *View, volOf func(prov []byte) uint64, balance *big.Int) batchDecision {
+func refDecision(sc *Scenario, bv *View, pc *st.RequestContext, blockTimeOf *View, volOf func(prov []byte) uint64, balance *big.Int) batchDecision {
 	d := batchDecision{Total: new(big.Int)}
 	cap := coinAmt(pc.ServiceFeeCap)
+	rate := rateFn(sc, blockTimeOf.Params.BaseDenom, blockTimeOf.S.Height)
 	for _, p := range pc.Providers {
 		b := bv.Binding(pc.ServiceName, p)
 		if b == nil || !b.Available || b.QoS > uint64(pc.Timeout) {
 			continue
 		}
-		price := parseRefPricing(b.Pricing).Price(blockTimeOf.S.BlockTime(), volOf(p))
+		price, ok := parseRefPricing(b.Pricing).PriceAt(blockTimeOf.S.BlockTime(), volOf(p), rate)
+		if !ok {
+			// the exchange-rate service has no answer for a provider that would have to be priced: nobody can be
+			// charged correctly, the whole batch is skipped
+			return batchDecision{Kind: "skip", Total: new(big.Int), NoRate: true}
+		}
 		if price.Cmp(cap) > 0 {
 			continue
 		}
@@ -106,8 +113,11 @@ func (oracleC06) Step(x *OCtx, t *Trans) []Violation {
 		if !advanced && !paused && !due {
 			continue
 		}
-		d := refDecision(t.Post, pc, t.Pre, func(p []byte) uint64 { return storedVolume(t.Pre, pc.Consumer, pc.ServiceName, p) }, balOf(pc.Consumer))
+		d := refDecision(x.Sc, t.Post, pc, t.Pre, func(p []byte) uint64 { return storedVolume(t.Pre, pc.Consumer, pc.ServiceName, p) }, balOf(pc.Consumer))
 		x.Wit("C06:decision-" + d.Kind)
+		if d.NoRate {
+			x.Wit("C06:skipped-for-want-of-an-exchange-rate")
+		}
 		if len(d.Providers) < len(pc.Providers) && len(d.Providers) > 0 {
 			x.Wit("C06:some-providers-filtered-out")
 		}
@@ -232,7 +242,15 @@ func (oracleC07) Step(x *OCtx, t *Trans) []Violation {
 		}
 		rp := parseRefPricing(b.Pricing)
 		vol := t.PreMon.Vol[volKey(c.Consumer, c.ServiceName, r.Provider)]
-		want := rp.Price(t.Pre.S.BlockTime(), vol)
+		foreign := rp.Denom != "" && rp.Denom != t.Pre.Params.BaseDenom
+		want, haveRate := rp.PriceAt(t.Pre.S.BlockTime(), vol, rateFn(x.Sc, t.Pre.Params.BaseDenom, t.Pre.S.Height))
+		if !haveRate {
+			out = append(out, viol("C07", "no-request-without-a-price", kind, nameOf(r.Provider), "request issued to "+nameOf(r.Provider)+" although the exchange-rate service had no rate for "+rp.Denom))
+			continue
+		}
+		if foreign {
+			x.Wit("C07:fee-exchanged-from-another-denomination")
+		}
 		x.Wit("C07:fee-checked")
 		if want.Cmp(rp.Base) < 0 {
 			x.Wit("C07:fee-discounted")
@@ -248,7 +266,7 @@ func (oracleC07) Step(x *OCtx, t *Trans) []Violation {
 		if max.Cmp(bi(1)) < 0 {
 			max = bi(1)
 		}
-		if fee.Cmp(max) > 0 {
+		if fee.Cmp(max) > 0 && !foreign {
 			out = append(out, viol("C07", "fee-never-above-base-price", kind, nameOf(r.Provider), fmt.Sprintf("fee %s above max(base %s, 1)", fee, rp.Base)))
 		}
 	}
